@@ -332,6 +332,23 @@ func cmdC14(args []string) int {
 				if okA && anchRef != nil {
 					anchEnd = anchRef[1]
 				}
+				// earliest-match mode computes the EARLIEST end of any match starting at or
+				// after `at` (SearchFirstAt returns as soon as a match state is reached),
+				// not the leftmost-first end: min over starts of the reference's match ends
+				earliestEnd := -1
+				if refEnd >= 0 {
+					for s0 := at; s0 <= len(h); s0++ {
+						ans := model.ask(fmt.Sprintf("ends %d %x", s0, h))
+						if strings.HasPrefix(ans, "e") {
+							for _, f := range strings.Fields(ans)[1:] {
+								var v int
+								if _, err := fmt.Sscanf(f, "%d", &v); err == nil && (earliestEnd < 0 || v < earliestEnd) {
+									earliestEnd = v
+								}
+							}
+						}
+					}
+				}
 				for _, di := range dfas {
 					if g := di.d.FindAt(di.cache, h, at); g != refEnd {
 						run.bad("lazy.DFA", "FindAt", h, at, fmt.Sprint(refEnd), fmt.Sprint(g), di.name)
@@ -339,8 +356,8 @@ func cmdC14(args []string) int {
 					if g := di.d.SearchAt(di.cache, h, at); g != refEnd {
 						run.bad("lazy.DFA", "SearchAt", h, at, fmt.Sprint(refEnd), fmt.Sprint(g), di.name)
 					}
-					if g := di.d.SearchFirstAt(di.cache, h, at); g != refEnd {
-						run.bad("lazy.DFA", "SearchFirstAt", h, at, fmt.Sprint(refEnd), fmt.Sprint(g), di.name)
+					if g := di.d.SearchFirstAt(di.cache, h, at); g != earliestEnd {
+						run.bad("lazy.DFA", "SearchFirstAt", h, at, fmt.Sprint(earliestEnd), fmt.Sprint(g), di.name)
 					}
 					if g := di.d.IsMatchAt(di.cache, h, at); g != refBool {
 						run.bad("lazy.DFA", "IsMatchAt", h, at, fmt.Sprint(refBool), fmt.Sprint(g), di.name)
